@@ -26,7 +26,7 @@ ROOTS = ["r1", "r2", "r3"]
 SENTINELS = [["f"], ["a", "f"], ["b", "f"]]
 STYLES = ["slash", "backslash", "mixed"]
 SCRIPT_OPS = ["loadFile", "preprocessFile", "preprocessFileLineNumbers", "execVM"]
-INCLUDE_OPS = ["include", "include2", "include3"]
+INCLUDE_OPS = ["include", "include2", "include3", "include4"]
 # directory names of the physical roots: the root ids r1, r2, r3 of the model are symbolic; "rev" names them so that the root used
 # first is NOT the smallest path (the order of mapping, not of the names, must decide).  Every root has an unmapped sibling
 # directory <name>x (request base "r1x" ...), i.e. a directory outside all roots whose path merely starts with the root's path.
@@ -197,6 +197,8 @@ def driver_case(case, mat):
         ops.append({"op": "include", "path": inc_text, "from": frm, "fromPhys": "/".join([dirname_of(case, cur["root"])] + xrel)})
         ops.append({"op": "include2", "path": inc_text, "from": frm})
         ops.append({"op": "include3", "path": inc_text, "from": frm})      # the same includer twice in one preprocessor run
+        # a file next to the includer includes the includer by its bare name (depth two, both hops relative)
+        ops.append({"op": "include4", "path": inc_text, "from": frm, "fromPhys": "/".join([dirname_of(case, cur["root"])] + xrel)})
     else:
         text = render(case, cdir, False)
         for o in SCRIPT_OPS:
